@@ -446,6 +446,11 @@ done:
 	}
 	if winner == nil {
 		ob.Verdict, ob.Solver = "unknown", "none"
+		if ob.Goal == False {
+			// the clause evaluates to false on this path whatever the state is; the only open question was whether the
+			// path is feasible, and no solver could show that it is not (a pruned or dead path is discharged as unsat)
+			ob.Verdict, ob.Solver = "refuted", "evaluation"
+		}
 		for _, r := range all {
 			ob.Model += "--- " + r.name + " ---\n" + truncate(r.out, 2000) + "\n"
 		}
@@ -500,6 +505,46 @@ func (p *Program) solveAll(obs []*Obligation, cfg SolverCfg) {
 			defer func() { <-sem }()
 			p.solveOne(ob, cfg, i)
 		}(i, ob)
+	}
+	wg.Wait()
+	// Second chance: an obligation no solver decided may have lost to machine load (all checks and all
+	// obligations run in parallel). Up to eight of them are tried again, four at a time, with twice the budget.
+	var again []int
+	for i, ob := range obs {
+		if !ob.Vacuity && ob.Unbound == "" && (ob.Verdict == "unknown" || ob.Verdict == "timeout") && ob.Solver != "vc-too-large" {
+			again = append(again, i)
+		}
+	}
+	if len(again) == 0 || len(again) > 8 {
+		return
+	}
+	cfg2 := cfg
+	cfg2.TimeoutS = cfg.TimeoutS * 2
+	if cfg2.TimeoutS > 90 {
+		cfg2.TimeoutS = 90
+	}
+	cfg2.Seed = cfg.Seed + 1
+	sem2 := make(chan struct{}, 4)
+	for _, i := range again {
+		wg.Add(1)
+		sem2 <- struct{}{}
+		go func(i int, ob *Obligation) {
+			defer wg.Done()
+			defer func() { <-sem2 }()
+			first := *ob
+			ob.Verdict, ob.Solver, ob.Model, ob.SolverNotes, ob.CandidateModel = "", "", "", "", ""
+			p.solveOne(ob, cfg2, i)
+			if ob.Verdict == "unknown" || ob.Verdict == "timeout" {
+				notes := ob.SolverNotes
+				*ob = first
+				ob.SolverNotes += " | retried with " + fmt.Sprint(cfg2.TimeoutS) + "s: " + notes
+				if len(ob.SolverNotes) > 3000 {
+					ob.SolverNotes = ob.SolverNotes[:3000] + "…"
+				}
+				return
+			}
+			ob.SolverNotes += fmt.Sprintf(" | decided on the second attempt (%ds budget)", cfg2.TimeoutS)
+		}(i, obs[i])
 	}
 	wg.Wait()
 }
